@@ -152,10 +152,41 @@ def r3(ctx):
         if isinstance(e, ast.Call) and isinstance(e.func, ast.Name) and e.func.id == "int" and ".read()" in norm(e):
             return "FILEPID"
         return None
-    outs = Explorer(f, atom_of=atom_of).run(g.entry, {"FILEPID": 4242, "self.pid": 4242, "self.fname": "/run/gunicorn.pid"}, watch={n.id: "unlink" for n in un})
-    rets = [o for o in outs if o.kind == "return"]
-    ctx.check("C17.R3", bool(rets) and all("unlink" in o.events for o in rets), key(f, "own-file-removed"), site(f),
-              "Pidfile.unlink() can return without removing a pid file that contains this master's own pid: the file outlives the master (stale pid file after a clean exit)", "own pid file always removed")
+    # over the object's life: __init__, create(pid) -- the file did not exist, or already named this process (adopted) --, then
+    # unlink() with the file still holding that pid; every instance attribute of the class is carried along
+    cls_ = repo.cls(PF)
+    attrs = sorted(set("self." + t.attr for fm in cls_.methods.values() for x in walk_own(fm.node) if isinstance(x, (ast.Assign, ast.AugAssign))
+                       for t in (x.targets if isinstance(x, ast.Assign) else [x.target]) if isinstance(t, ast.Attribute) and tail(t.value) == "self"))
+    f_init, f_cr = repo.func(PF + ".__init__"), ctx.fn(repo.func(PF + ".create"))
+
+    def atom_cr(e):
+        if isinstance(e, ast.Call) and (repo.call_target(f_cr.module, f_cr, e) or "") == PF + ".validate":
+            return "OLDPID"
+        if isinstance(e, ast.Call) and repo.call_target(f_cr.module, f_cr, e) == "os.getpid":
+            return "GETPID"
+        return None
+
+    def carry(o):
+        return dict((k, v) for k, v in o.env.items() if k.startswith("self."))
+    states = []
+    for o0 in Explorer(f_init, tracked=attrs).run(f_init.cfg.entry, {f_init.params[1]: "/run/gunicorn.pid"}):
+        if o0.kind != "return":
+            continue
+        for label, old in (("created (no file before)", None), ("adopted (the file already named this process)", 4242)):
+            e1 = carry(o0)
+            e1.update({f_cr.params[1]: 4242, "OLDPID": old, "GETPID": 4242})
+            for o1 in Explorer(f_cr, tracked=attrs, atom_of=atom_cr, max_states=200000).run(f_cr.cfg.entry, e1):
+                if o1.kind == "return":
+                    states.append((label, carry(o1)))
+    ctx.need(states, "C17.R3: Pidfile.create has no normal outcome")
+    for label, st_ in states:
+        e2 = dict(st_)
+        e2.update({"FILEPID": 4242})
+        outs = Explorer(f, atom_of=atom_of, tracked=attrs).run(g.entry, e2, watch={n.id: "unlink" for n in un})
+        rets = [o for o in outs if o.kind == "return"]
+        ctx.check("C17.R3", bool(rets) and all("unlink" in o.events for o in rets), key(f, "own-file-removed|" + label), site(f),
+                  "after create(pid) -- %s -- Pidfile.unlink() can return without removing the pid file although it still contains this master's own pid: the file outlives the master "
+                  "(stale pid file after a clean exit)" % label, "own pid file always removed")
     for c in calls_to(repo, f, ["os.unlink", "os.remove"]):
         ctx.check("C17.R3", norm(c.args[0]) == "self.fname", key(f, "unlinks-own-path"), site(f, c), "unlink removes something other than self.fname", "os.unlink(self.fname)")
     ops = [c for c in walk_own(f.node) if isinstance(c, ast.Call) and norm(c.func) == "open"]
